@@ -255,6 +255,9 @@ def run(ch, params, decoded=False):
     stats = {"mode=" + mode: 1, "cache=" + knobs["cache_variant"]: 1, "page_wrap=%d" % prog["page_wrap"]: 1}
     violations = []
     exp_a = ref.run_model(prog)
+    _skip = R.skipped_if_too_big(exp_a)
+    if _skip is not None:
+        return _skip
     exp = exp_a
     model = exp["model"]
     classes = emit.build_classes(prog)
@@ -265,6 +268,8 @@ def run(ch, params, decoded=False):
     pages = [(prog, exp_a, expectations(prog, exp_a["model"], exp_a["stream"]) if exp_a["result"][0] == "ok" else None)]
     if prog_b is not None:
         exp_b = ref.run_model(prog_b)
+        if exp_b["result"][0] == "toobig":
+            return R.skipped_if_too_big(exp_b)
         pages.append((prog_b, exp_b, expectations(prog_b, exp_b["model"], exp_b["stream"]) if exp_b["result"][0] == "ok" else None))
         budget += params["budget_mult"] * max(1, exp_b["model"].node_renders)
         if pages[0][2] and pages[1][2]:
